@@ -22,6 +22,8 @@ val compOpp : comparison -> comparison
 
 val add : nat -> nat -> nat
 
+val sub : nat -> nat -> nat
+
 module Nat :
  sig
   val eqb : nat -> nat -> bool
@@ -33,11 +35,15 @@ module Nat :
   val div2 : nat -> nat
  end
 
+val nth : nat -> 'a1 list -> 'a1 -> 'a1
+
 val nth_error : 'a1 list -> nat -> 'a1 option
 
 val rev : 'a1 list -> 'a1 list
 
 val map : ('a1 -> 'a2) -> 'a1 list -> 'a2 list
+
+val flat_map : ('a1 -> 'a2 list) -> 'a1 list -> 'a2 list
 
 val fold_left : ('a1 -> 'a2 -> 'a1) -> 'a2 list -> 'a1 -> 'a1
 
@@ -566,6 +572,93 @@ val s_iter_all :
 
 val kv_gas_config : gascfg
 
+val vget : (z * 'a1) list -> z -> 'a1 option
+
+val vset : (z * 'a1) list -> z -> 'a1 -> (z * 'a1) list
+
+val vdel : (z * 'a1) list -> z -> (z * 'a1) list
+
+val vmax : (z * 'a1) list -> z
+
+val vhas : (z * 'a1) list -> z -> bool
+
+val kv_eqb : kv -> kv -> bool
+
+type tree = { t_disk : (z * kv) list; t_work : kv; t_ver : z }
+
+val tree_empty : tree
+
+val save_version : tree -> tree option
+
+type dres =
+| DelOk of tree
+| DelMissing
+| DelLatest
+
+val delete_version : tree -> z -> dres
+
+val load_version : (z * kv) list -> z -> tree option
+
+type prune = { keep_recent : z; keep_every : z }
+
+val to_release : prune -> z -> z option
+
+val store_commit : prune -> tree -> (tree * tree list) option
+
+type hash = kv
+
+type cinfo = (bytes * (z * hash)) list
+
+type mstore = { ms_trees : (bytes * tree) list; ms_infos : (z * cinfo) list;
+                ms_latest : z; ms_last : (z * cinfo); ms_prune : prune;
+                ms_transient : (bytes * kv) list }
+
+val insert_info : (bytes * (z * hash)) -> cinfo -> cinfo
+
+val sort_infos : cinfo -> cinfo
+
+val commit_trees :
+  prune -> (bytes * tree) list -> nat option -> ((((bytes * tree)
+  list * cinfo) * nat option) * bool) option
+
+val commit : mstore -> nat option -> (mstore * bool) option
+
+val load_trees :
+  (bytes * tree) list -> cinfo option -> (bytes * tree) list option
+
+val load_ms : mstore -> z -> mstore option
+
+val reopen : mstore -> mstore option
+
+val upd_tree :
+  (bytes * tree) list -> bytes -> (kv -> kv) -> (bytes * tree) list
+
+val ms_set : mstore -> bytes -> bytes -> bytes -> mstore
+
+val ms_delete : mstore -> bytes -> bytes -> mstore
+
+val ms_tset : mstore -> bytes -> bytes -> bytes -> mstore
+
+val ms_set_pruning : mstore -> prune -> mstore
+
+type qres =
+| QValue of bytes option
+| QNoVersion
+| QNoStore
+
+val ms_query : mstore -> bytes -> bytes -> z -> qres
+
+val pick : (bytes * tree) list -> bytes -> (bytes * tree) list
+
+val reorder : (bytes * tree) list -> bytes list -> (bytes * tree) list
+
+val restore : bytes list -> (bytes * tree) list -> (bytes * tree) list
+
+val commit_in_order :
+  mstore -> bytes list -> nat option -> (mstore * bool) option
+
+val ms_init : bytes list -> prune -> mstore
+
 val be_bytes : nat -> z -> bytes
 
 val le_bytes : nat -> z -> bytes
@@ -752,14 +845,14 @@ type tx = { t_msg : msg; t_fee : z; t_memo_len : z;
 
 val required_fee : state -> z -> msg -> z
 
-type dres =
+type dres0 =
 | DOk of state
 | DRejected of state
 | DHandlerErr of state
 
 val ante : state -> tx -> state option
 
-val deliver_tx : state -> tx -> dres
+val deliver_tx : state -> tx -> dres0
 
 val k_award : state -> bytes -> z -> state
 
